@@ -6,6 +6,29 @@ import (
 
 type shortCircuit struct{}
 
+// AvoidUnresolvableCalleeOrder keeps layer 2 out of the neighbourhood of the listed known finding
+// C02-unresolvable-callee-order (see known-findings.d/C02.json).
+var AvoidUnresolvableCalleeOrder = true
+
+// Known lists the known findings of the engine under test whose neighbourhood the interpreter refuses to judge:
+// when a run reaches such a construct the interpretation is abandoned ("known-finding:<id>", out of domain).
+// Each switch is removed again (set false) when the fix is merged; see known-findings.d/C02.json.
+var Known = struct {
+	SurplusArgs      bool // C02-surplus-args-spill: a call passes more arguments than the callee has formal parameters
+	PrimitiveRefSet  bool // C02-property-reference-base: strict-mode write through a destructuring / logical-assignment / for-head target on a primitive base
+	NullBaseRefOrder bool // C02-property-reference-base: such a target on an undefined / null base
+	ConstTDZAssign   bool // C02-const-tdz-assign: assignment to a const binding inside its temporal dead zone
+	MulNegZero       bool // C02-int-mul-negzero: a multiplication of integers that yields -0
+	EvalVarFuncName  bool // C02-eval-var-function-expression-name: a sloppy direct eval declares a var/function named like the enclosing named function expression
+	MappedArgsEval   bool // C02-mapped-arguments-eval-var: a sloppy direct eval declares a var/function in a function that has a mapped arguments object
+}{false, false, false, false, false, true, false} // (MappedArgsEval fixed too) the first five are fixed in /repo (386f001, 5d89e51, const-tdz): traps off
+
+func (it *Interp) trap(on bool, id string) {
+	if on {
+		panic(&abort{"known-finding:" + id})
+	}
+}
+
 func isNullish(v Value) bool { return v == Undefined || v == NullV }
 
 // evalNamed: NamedEvaluation when the target is an identifier and the expression an anonymous function / class.
@@ -74,6 +97,7 @@ func (it *Interp) eval(n *Node, ctx *execCtx) Value {
 			env := newDeclEnv(ctx.lex)
 			b := env.createImmutable(n.S, false)
 			f := it.closure(n, env, ctx.strict)
+			f.fn.selfNamed = true
 			it.setFunctionName(f, n.S)
 			b.initialize(f)
 			return f
@@ -294,6 +318,9 @@ func (it *Interp) binaryOp(op string, l, r Value) Value {
 		case "-":
 			return a - b
 		case "*":
+			if r := a * b; r == 0 && math.Signbit(r) && !(a == 0 && math.Signbit(a)) && !(b == 0 && math.Signbit(b)) && a == math.Trunc(a) && b == math.Trunc(b) {
+				it.trap(Known.MulNegZero, "C02-int-mul-negzero")
+			}
 			return a * b
 		case "/":
 			return a / b
@@ -422,6 +449,9 @@ func (it *Interp) evalAssign(n *Node, ctx *execCtx) Value {
 		return v
 	}
 	ref := it.evalRef(n.A, ctx)
+	if n.S == "&&=" || n.S == "||=" || n.S == "??=" {
+		it.trapRef(ref)
+	}
 	lval := it.getValue(ref)
 	switch n.S {
 	case "&&=":
@@ -465,6 +495,11 @@ func (it *Interp) evalCall(n *Node, ctx *execCtx) Value {
 	switch n.A.K {
 	case KIdent, KDot, KIndex, KSuperDot:
 		ref := it.evalRef(n.A, ctx)
+		if ref.unresolved && len(n.L) > 0 && AvoidUnresolvableCalleeOrder {
+			// known finding C02-unresolvable-callee-order: goja evaluates the arguments before it reports the
+			// unresolvable callee (an existing repository test pins that order); such calls are outside the compared domain
+			panic(&abort{"known-finding: unresolvable callee with arguments"})
+		}
 		fv = it.getValue(ref)
 		if ref.isProp {
 			this = ref.base
@@ -605,7 +640,9 @@ func (it *Interp) bindTarget(t *Node, v Value, ctx *execCtx, env *Env, assign bo
 	case KArrPat, KObjPat:
 		it.destructure(t, v, ctx, env, assign)
 	default:
-		it.putValue(it.evalRef(t, ctx), v)
+		r := it.evalRef(t, ctx)
+		it.trapRef(r)
+		it.putValue(r, v)
 	}
 }
 
@@ -624,7 +661,22 @@ func (it *Interp) elemRef(t *Node, ctx *execCtx, env *Env) (Ref, bool) {
 		}
 		return it.resolveBinding(t.S, ctx.lex, ctx.strict), true
 	}
-	return it.evalRef(t, ctx), true
+	r := it.evalRef(t, ctx)
+	it.trapRef(r)
+	return r, true
+}
+
+// trapRef: a reference created by goja's getPropRef / getElemRef instructions (destructuring targets, logical
+// assignment, for-in/of heads) on a base that is not an object.
+func (it *Interp) trapRef(ref Ref) {
+	if !ref.isProp {
+		return
+	}
+	if isNullish(ref.base) {
+		it.trap(Known.NullBaseRefOrder, "C02-property-reference-base")
+	} else if _, ok := ref.base.(*Object); !ok && ref.strict {
+		it.trap(Known.PrimitiveRefSet, "C02-property-reference-base")
+	}
 }
 
 func (it *Interp) storeElem(t *Node, ref Ref, hasRef bool, v Value, ctx *execCtx, env *Env, assign bool) {
